@@ -58,7 +58,7 @@ def build(img, prof, P=None, size_bytes=None):
                       has_parent=bool(img["parent"]), note={k: v for k, v in prof.items() if k != "when"}, parent_base=pbase)
 
 
-def make_trace(tid, rng, nops=30):
+def make_trace(tid, rng, nops=30, **opt):
     """Random real-geometry image + random op sequence on the real object -> trace dict."""
     bs = rng.choice([1 << 20, 1 << 20, 65536, 4096, 2 << 20])
     n = rng.randrange(2, 40 if bs <= (1 << 20) else 12)
@@ -77,7 +77,7 @@ def make_trace(tid, rng, nops=30):
     b = build(img, prof, P=npos, size_bytes=size_b)
     s = b.open()
     fresh = b.open()
-    rec = record.Recorder(s, size_b, probe=fresh.readoffset)
+    rec = record.Recorder(s, size_b, probe=fresh.readoffset, align=opt.get("align"))
     record.random_ops(rec, rng, size_b, nops, unit=bs, big=min(3 * bs + 4096, 6 << 20))
     return {"tid": tid, "fmt": "vdi", "img": {"n": n, "map": mp, "parent": parent}, "sizeB": size_b, "geo": b.geo(), "events": rec.events}
 
